@@ -92,8 +92,8 @@ void harness(void)
 /* name "null" (any letter case) re-registers slot 0; any other name takes the next slot.  Table invariant kept:
  * EVERY registered context (ghost slot vg_k) has a name that is a C string — ctx_name_to_id passes each of them
  * to strcasecmp on every "begin" line.
- * Behaviour split: U_CTX_NULL_LATE = "null" is re-registered AFTER other contexts were added (ctx_idx > 0);
- * the other unit covers every other call. */
+ * Behaviour split: U_CTX_NULL_LATE = "null" is re-registered AFTER other contexts were added (ctx_idx > 0; this
+ * behaviour carried finding C09-null-reregister until fix 9b76b44); the other unit covers every other call. */
 #define IS_NULL_NAME(n) (VLOW((n)[0]) == 'n' && VLOW((n)[1]) == 'u' && VLOW((n)[2]) == 'l' && VLOW((n)[3]) == 'l' && (n)[4] == 0)
 unsigned char spifconf_register_context(spif_charptr_t name, ctx_handler_t handler)
 __CPROVER_requires(CTXTAB_INV && ctx_idx < 255)
@@ -130,8 +130,9 @@ void harness(void)
 
 #ifdef U_BUILTIN
 /* The table is terminated by a NULL name: spifconf_shell_expand scans `for (k = 0; builtins[k].name; k++)`.
- * Behaviour split: U_BLT_GROW = this registration fills the last free slot and the table grows;
- * the other unit covers every registration that leaves the capacity alone. */
+ * Behaviour split: U_BLT_GROW = this registration fills the last free slot and the table grows (this behaviour
+ * carried finding C11-builtin-table-unterminated until fix bed04e2); the other unit covers every registration
+ * that leaves the capacity alone. */
 unsigned char spifconf_register_builtin(char *name, spifconf_func_ptr_t ptr)
 __CPROVER_requires(BLTTAB_INV && builtin_idx < 255)
 __CPROVER_requires(VCSTR_FRESH(name, vg_n1))
